@@ -20,6 +20,8 @@ impl<T> HSet<T> {
     pub uninterp spec fn view(&self) -> Set<T>;
     #[verifier::external_body]
     pub fn new() -> (r: HSet<T>) ensures r@ == Set::<T>::empty() { unimplemented!() }
+    #[verifier::external_body]
+    pub fn is_empty(&self) -> (r: bool) ensures r == (forall|x: T| !self@.contains(x)) { unimplemented!() }
     /// `HashSet::extend(other_set)`: union
     #[verifier::external_body]
     pub fn extend(&mut self, other: HSet<T>) ensures final(self)@ == old(self)@.union(other@) { unimplemented!() }
@@ -64,6 +66,22 @@ impl<V> PMap<V> {
             *r == (if old(self)@.contains_key(k) { old(self)@[k] } else { default_of::<V>() }),
             final(self)@ == old(self)@.insert(k, *final(r)),
     { unimplemented!() }
+}
+
+/// `map.values()` followed by `all(f)` / `any(f)`: ASSUMED only to return some bool -- what it says about the values is NOT
+/// specified here, so such an edit is decided by the concrete oracle alone (exit 1 only with a failing input, otherwise exit 2)
+#[verifier::external_body]
+#[verifier::reject_recursive_types(V)]
+pub struct PMapVals<'a, V> { _p: core::marker::PhantomData<&'a V> }
+impl<'a, V> PMapVals<'a, V> {
+    #[verifier::external_body]
+    pub fn all<F: Fn(&V) -> bool>(self, f: F) -> bool { unimplemented!() }
+    #[verifier::external_body]
+    pub fn any<F: Fn(&V) -> bool>(self, f: F) -> bool { unimplemented!() }
+}
+impl<V> PMap<V> {
+    #[verifier::external_body]
+    pub fn values(&self) -> PMapVals<'_, V> { unimplemented!() }
 }
 
 /// HashMap<u32, V> (used at V = syn::TypePath and V = Derives)
